@@ -436,6 +436,14 @@ func (c *Ctx) loopHead(fr *Frame, li *loopInfo, b *ssa.BasicBlock, st *State, re
 		c.notes["loop-havoc-all: "+eff.why]++
 	}
 	c.havocEffects(st, eff, reach)
+	// 2b. frame invariant derived from the function's `modifies` clause: the loop changes nothing else
+	if fr.isRoot && c.contract != nil && c.contract.HasMod && !c.contract.Pure {
+		names := paramNames(fr.fn)
+		c.frameConds(c.contract, names, c.entryArgs, st, func(detail, cond, expr, eq string) {
+			c.registerForallFrame(eq)
+			c.assume(reach, eq)
+		})
+	}
 	// 3. assume invariants
 	env = c.contractEnvLocal(fr, st)
 	if spec != nil {
@@ -647,6 +655,10 @@ func (c *Ctx) loopBack(fr *Frame, li *loopInfo, st *State, reach string, pos tok
 			}
 			c.oblige("variant", fmt.Sprintf("loop%d", li.ordinal), reach, lexLess(now, li.variant), pos, "decreases "+li.varText)
 		}
+	}
+	if fr.isRoot && c.contract != nil && c.contract.HasMod && !c.contract.Pure {
+		names := paramNames(fr.fn)
+		c.groupedFrame("inv-pres", fmt.Sprintf("loop%d/frame:", li.ordinal), c.contract, names, c.entryArgs, st, reach, pos, "loop preserves the frame")
 	}
 	for _, cd := range c.hcands[li.header] {
 		v := c.load(st, PtrV{Kind: 0, Alloc: cd.a, Elem: cd.a.Type().(*types.Pointer).Elem()}).(Sc).T
